@@ -496,6 +496,11 @@ pub fn start_server(config: &Config, addr: &crate::net::SocketAddr) -> Result<()
             #[cfg(unix)]
             crate::net::SocketAddr::Unix(path) => {
                 trace!("binding unix socket {}", path.display());
+                // A stale socket file has to be unlinked before binding, which would just
+                // as well unlink the socket of a live server. Hold an exclusive lock next
+                // to the socket for as long as this server runs, so that only one server
+                // ever owns the path; the others report AddrInUse like a taken TCP port.
+                let lock = crate::net::lock_unix_socket_path(path)?;
                 // Unix socket will report addr in use on any unlink file.
                 let _ = std::fs::remove_file(path);
                 let l = {
@@ -506,7 +511,10 @@ pub fn start_server(config: &Config, addr: &crate::net::SocketAddr) -> Result<()
                     SccacheServer::<_>::with_listener(l, runtime, client, dist_client, storage);
                 Ok((
                     srv.local_addr().unwrap(),
-                    Box::new(move |f| srv.run(f)) as Box<dyn FnOnce(_) -> _>,
+                    Box::new(move |f| {
+                        let _lock = lock;
+                        srv.run(f)
+                    }) as Box<dyn FnOnce(_) -> _>,
                 ))
             }
             #[cfg(any(target_os = "linux", target_os = "android"))]
